@@ -40,7 +40,7 @@ THEOREMS = [
 SQLITE_ERRORS = {"OperationalError", "ProgrammingError", "IntegrityError", "DatabaseError", "InterfaceError", "InternalError",
                  "NotSupportedError", "DataError", "Warning"}
 PURGES = ["purge_broker", "purge_orchestrator", "purge_state_backend", "purge_trigger", "purge_client_data_store", "purge_app"]
-PREAMBLE = ["route", "route", "route_keyed", "retrieve", "set_status", "set_status", "sb_result", "sb_exception", "heartbeat",
+PREAMBLE = ["route", "route", "route_inside", "route_keyed", "retrieve", "set_status", "set_status", "sb_result", "sb_exception", "heartbeat",
             "store_rctx", "wf_data", "wait", "cds_store", "reg_trigger", "emit", "cron", "claim", "cron_tick"]
 
 
@@ -349,6 +349,8 @@ def run_scenario(kind: str, ids: list[str], steps: list[tuple[int, str, int]], t
             rep(f"cannot-build[{kind}]:{type(e).__name__}", f"[{kind}] applications {ids!r} cannot be built side by side: {e!r}"[:300], -1)
             return found
         own = [{n.lower() for n in h.table_names()} for h in hs]
+        for n_, h_ in enumerate(hs):
+            h_.neighbour = hs[(n_ + 1) % len(hs)] if len(hs) > 1 else None
 
         index = {i: n for n, i in enumerate(ids)}
 
@@ -517,6 +519,55 @@ def scenario_stage(ctx: Ctx) -> None:
     ctx.sample({"scenario": "random triple", "ids": list(rnd3[0]) if rnd3 else None})
 
 
+def from_info_stage(ctx: Ctx) -> None:
+    """operator tooling re-creates applications from their stored AppInfo (`Pynenc.from_info`: monitor, CLI).  One code base deployed
+    for several tenants stores, for EVERY tenant, the same module and variable name; in a process where that variable holds tenant
+    A, the handle made from the AppInfo of tenant B must still be B - and what is done through it must reach B only."""
+    import dataclasses
+    import sys as _sys
+    import types
+
+    from pynenc import Pynenc
+    from pynenc.app_info import AppInfo
+
+    groups = [g for g in fixed_groups() if all(usable(x) for x in g)][: 6 if ctx.quick else 40]
+    modname = "c17_tenant_module"
+    for g in groups:
+        a_id, b_id = g[0], g[1]
+        d = tempfile.mkdtemp(dir=ctx.tmp)
+        db = os.path.join(d, "shared.db")
+        try:
+            ha, hb = Handle("sqlite", d, a_id, db, None), Handle("sqlite", d, b_id, db, None)
+            for h in (ha, hb):
+                h.do("route", 1)
+            hb.do("route", 2)
+            mod = types.ModuleType(modname)
+            mod.__file__ = os.path.join(d, modname + ".py")
+            open(mod.__file__, "w").write("# tenant module\n")
+            mod.app = ha.app                                   # this process runs as tenant A
+            _sys.modules[modname] = mod
+            try:
+                info_b = dataclasses.replace(AppInfo.from_app(hb.app), module=modname, module_filepath=mod.__file__, app_variable="app")
+                got = Pynenc.from_info(info_b)
+                ctx.count()
+                ctx.distinct(("from-info", a_id, b_id))
+                rep = {"kind": "from-info", "ids": [a_id, b_id]}
+                if got.app_id != b_id:
+                    ctx.report("from-info-returns-other-application", f"Pynenc.from_info(AppInfo of {b_id!r}) in a process whose module variable holds {a_id!r} returned the application {got.app_id!r}", rep)
+                    continue
+                na, nb_ = ha.app.broker.count_invocations(), hb.app.broker.count_invocations()
+                seen = got.broker.count_invocations()
+                if seen != nb_:
+                    ctx.report("from-info-handle-sees-other-queue", f"the handle made from the AppInfo of {b_id!r} counts {seen} queued invocations; {b_id!r} has {nb_}, {a_id!r} has {na}", rep)
+                got.broker.purge()
+                if ha.app.broker.count_invocations() != na:
+                    ctx.report("from-info-handle-purges-other", f"purging the broker through the handle of {b_id!r} emptied the queue of {a_id!r}", rep)
+            finally:
+                _sys.modules.pop(modname, None)
+        finally:
+            shutil.rmtree(d, ignore_errors=True)
+
+
 # ------------------------------------------------------------------------------------------------
 
 
@@ -545,6 +596,7 @@ def run(ctx: Ctx) -> None:
     ctx.notes["t_usable_s"] = round(time.time() - t0, 1)
     t0 = time.time()
     scenario_stage(ctx)
+    from_info_stage(ctx)
     ctx.notes["t_scenarios_s"] = round(time.time() - t0, 1)
     ctx.assumptions += [
         "SHA-256 is not modelled: the 8 hex digits are a parameter of the model; 'no collision of the 32-bit prefix' is the explicit hypothesis ha ≠ hb of table_names_distinct / apps_disjoint / exact_purge_isolated",
